@@ -75,8 +75,8 @@ def has_port(e):
 
 class C01(Prop):
     ID = 'C01'
-    N_QUICK = 4000
-    N_THOROUGH = 36000
+    N_QUICK = 8000
+    N_THOROUGH = 60000
     CASE_TIMEOUT = 120
     RULE = ('random hubs of 2..6 register-like ports (number/boolean, per-call read/write latencies from '
             '{0,1,7,20,120} ms, 20 % with mutually inverse write/read transforms, 15 % sampling the register at the start '
